@@ -584,7 +584,9 @@ def storeMove (rec : Path → Val → Option Path → FM (Option Report))
     let tnode ← node tgt
     let hit ← lift (collides (getValue tnode) last)
     if hit then do
-      let _ ← rec targetNode (.dict [(last, getValue srcNode)]) none
+      -- `target.apply_update({path[-1]: node.get_value()})`: the update goes to the parent in which the
+      -- collision was found (fix F58; it used to be applied to the node `add_node` was called on)
+      let _ ← rec tgt (.dict [(last, getValue srcNode)]) none
       pure ()
     else setAt (tgt ++ [last]) srcNode
     -- `target.path_for() + source_path[-1:]`: `tgt` is the parent under which the node was attached (fix F56)
